@@ -14,6 +14,7 @@ fn main() {
     }
     let code = match argv[1].as_str() {
         "smoke" => drivers::smoke::run(&args),
+        "server" => drivers::server::run(&args),
         other => {
             eprintln!("unknown driver {other}");
             2
